@@ -4,6 +4,7 @@
 mod backend;
 mod diag;
 mod engine;
+mod fuzzdrive;
 mod pred;
 mod repotests;
 mod util;
